@@ -398,7 +398,9 @@ func (s *segment) write(p []byte, entries []*entry) (n int, err error) {
 		return n, errors.Wrap(err, "log write failed")
 	}
 	s.position += int64(n)
-	if s.firstWriteTime == 0 {
+	// The segment is empty until its first offset is set. The write time does
+	// not tell since a message can carry a zero timestamp.
+	if s.firstOffset == -1 {
 		first := entries[0]
 		s.firstOffset = first.Offset
 		s.firstWriteTime = first.Timestamp
